@@ -147,7 +147,7 @@ def fl(x):
     while num % 2 == 0: num //= 2; k -= 1
     return 'F%s%s_%s' % (sign, zs(num), zs(-k))
 
-def show(root, canon=False):
+def show(root, canon=False, ident=True):
     """type-strict canonical text of an object graph with identity numbering (shared by load layer and round trips);
     canon=True lists dict entries sorted by the text of their key (for comparisons that must ignore key order)"""
     seen = {}
@@ -163,14 +163,16 @@ def show(root, canon=False):
             off = o.utcoffset()
             return 'T%s/%s/%s/%s/%s/%s/%s/%s' % (zs(o.year), zs(o.month), zs(o.day), zs(o.hour), zs(o.minute), zs(o.second), zs(o.microsecond), 'None' if off is None else zs(int(off.total_seconds())))
         if type(o) is datetime.date: return 'D%s/%s/%s' % (zs(o.year), zs(o.month), zs(o.day))
-        if id(o) in seen: return 'R%d' % seen[id(o)]
-        k = len(seen); seen[id(o)] = k
+        if ident:
+            if id(o) in seen: return 'R%d' % seen[id(o)]
+            k = len(seen); seen[id(o)] = k
+        else: k = 0          # tree form: sharing is not shown (only for acyclic graphs)
         if type(o) is list: body = 'L[' + ';'.join(v(x) for x in o) + ']'
         elif type(o) is dict:
             parts = []
             items = list(o.items())
             if canon:
-                try: items.sort(key=lambda kv: show(kv[0]))
+                try: items.sort(key=lambda kv: show(kv[0], ident=ident))
                 except Exception: pass
             for a, b in items:
                 ka = v(a); parts.append(ka + '=>' + v(b))
